@@ -75,7 +75,7 @@ class NotInBackendApi(Exception):
 
 # kinds whose axis the xarray backend takes as a dimension NAME; `stack` takes an int there but a negative one is
 # left out for xarray (see the rule text of c15.py and proposed_fixes/C15_xarray_stack_negative_axis.diff)
-XR_AXIS_BY_NAME = ("single", "concat", "stack")
+XR_AXIS_BY_NAME = ("single", "concat")
 
 
 def call_backend(backends, case: dict, wrap):
